@@ -21,7 +21,7 @@ EXPL = ('(R-WORDALG/c++) the same word-level algebra with the resolved AST as fr
 def run(ctx):
     ctx.explanation = EXPL
     ctx.level = 'other'
-    ctx.assumptions = ['the curve parameter x (with its sign) is the trusted root; preconditions of the assembly specifications (canonical operands, inv*p[0] = -1 mod 2^64 resp. 2^32, T < p*2^384) are stated, not derived; inversion is decided as partial correctness (loop invariant of the binary extended Euclid, every statement of the loop from an arbitrary state; termination is not decided); exponentiation, square root and Legendre symbol are compositions of the decided primitives and are not decided as values; the ARMv6-M assembly is decided on the disassembly of its sources after the divided-to-unified syntax rewrite of jpv/thumbconv.py (trusted; `mov lo, lo` leaves the flags unknown), the fused routines up to their call of the C++ reduce trampoline']
+    ctx.assumptions = ['the curve parameter x (with its sign) is the trusted root; preconditions of the assembly specifications (canonical operands, inv*p[0] = -1 mod 2^64 resp. 2^32, T < p*2^384) are stated, not derived; inversion is decided as partial correctness (loop invariant of the binary extended Euclid, every statement of the loop from an arbitrary state; termination is not decided); the Legendre symbol raises the value to exactly (p-1)/2 through the generic exponentiation and maps the power zero / one / other to 0 / 1 / -1; exponentiation and square root compose the decided primitives and are not decided as values; the ARMv6-M assembly is decided on the disassembly of its sources after the divided-to-unified syntax rewrite of jpv/thumbconv.py (trusted; `mov lo, lo` leaves the flags unknown), the fused routines up to their call of the C++ reduce trampoline']
     import os
     from .. import buildmodel as bm
     ctx.add_extra_unit(os.path.join(bm.VERIF, 'fixtures', 'instantiate_all.cpp'))
@@ -44,6 +44,7 @@ def run(ctx):
         wc = cppword.rule_wordalg_cpp(ctx, cfg, prog)
         ctx.floor('R-WORDALG/c++ routine x aliasing instances[%s]' % cfg, wc, 35)
         ni = cppword.rule_inverse_step(ctx, cfg, prog)
+        ni += cppword.rule_legendre(ctx, cfg, prog)
         ctx.floor('R-WORDALG/c++ inversion instantiations[%s]' % cfg, ni, 1)
         if cfg == 'x64-asm':
             ctx.floor('R-WORDALG routine x aliasing instances[%s]' % cfg, wa, 25)
